@@ -36,7 +36,8 @@ def has_non_sa_binding(g) -> bool:
     return False
 
 
-SETTINGS = [E.Settings(), E.Settings(ignorecase=True), E.Settings(nameguard=False), E.Settings(whitespace=r'[ \t]+'), E.Settings(parseinfo=True)]
+SETTINGS = [E.Settings(), E.Settings(ignorecase=True), E.Settings(nameguard=False), E.Settings(whitespace=r'[ \t]+'), E.Settings(parseinfo=True),
+            E.Settings(ignorecase=False)]
 
 
 def decorate(rng, g):
@@ -196,6 +197,15 @@ def shard(col, shard_i, ngrammars, ninputs):
         elif gi % 8 == 5:
             g, texts = cut_scope_grammar(rng)
             col.count('family.cut-scope')
+        elif gi % 8 == 6:
+            # keywords checked by a @name rule, with @@ignorecase given as a directive and overridden (or not) at parse time
+            from props.c11 import gen_kw_grammar
+            g, kws, _shape = gen_kw_grammar(rng)
+            if rng.random() < 0.6:
+                g['directives']['ignorecase'] = 'True'
+            words = ['if', 'IF', 'If', 'then', 'end', 'End', 'END', 'foo', 'x', 'x1'] + kws[:6] + [k.upper() for k in kws[:4]] + [k.capitalize() for k in kws[:4]]
+            texts = [' '.join(rng.choice(words) for _ in range(rng.randint(1, 3))) for _ in range(ninputs)]
+            col.count('family.keywords')
         else:
             g = G.gen_grammar(rng, G.GenCfg(names=0.2, overrides=0.06, skipto=0.04), depth=rng.choice([2, 3]))
             g = decorate(rng, g)
@@ -273,6 +283,8 @@ def shard(col, shard_i, ngrammars, ninputs):
                 mcfg = R.compile_grammar(c.g).optimized().new_parse_config(**c.settings.kwargs())
                 cfgdiff = sorted(f for f in ('parseinfo', 'ignorecase', 'nameguard', 'whitespace', 'namechars', 'comments', 'eol_comments',
                                              'left_recursion', 'memoization') if norm_cfg(getattr(gcfg, f)) != norm_cfg(getattr(mcfg, f)) and (getattr(gcfg, f) or getattr(mcfg, f)))
+                if sorted(map(str, gcfg.keywords or ())) != sorted(map(str, mcfg.keywords or ())):
+                    cfgdiff.append('keywords')
             except Exception:
                 pass
             from tatsu.util import safe_name
@@ -363,6 +375,56 @@ def shard_probes(col, shard_i):
                               {'oracle': 'generated parser vs model.parse (probe)', 'grammar': g, 'text': t, 'model.parse': outs[0], 'generated': outs[1]})
 
 
+# ---- one generated parser OBJECT reused over a history of calls (failing calls with per-call settings in between): every call must
+# ---- behave like the same call on a fresh parser and like model.parse (no setting may survive the call that gave it)
+def shard_history(col, shard_i, nhist):
+    import tatsu
+    from props.c11 import gen_kw_grammar
+    rng = col.rng
+
+    def outcome(run):
+        try:
+            return ('ok', E.canon(run()))
+        except tatsu.exceptions.FailedParse:
+            return ('fail', None)
+        except Exception as e:  # noqa
+            return ('exc', type(e).__name__)
+    for _ in range(nhist):
+        if rng.random() < 0.6:
+            g, kws, _shape = gen_kw_grammar(rng)
+            words = ['if', 'IF', 'If', 'then', 'end', 'End', 'END', 'foo', 'x', 'x1', 'while'] + kws + [k.upper() for k in kws[:4]] + [k.capitalize() for k in kws[:4]]
+            texts = [' '.join(rng.choice(words) for _ in range(rng.randint(1, 3))) for _ in range(8)]
+        else:
+            g = G.gen_grammar(rng, G.GenCfg(names=0.2, overrides=0.05), depth=2)
+            texts = [t[:30] for t in G.gen_inputs(rng, g, 8)]
+        cls = R.generated_parser(g)
+        m = R.compile_grammar(g)
+        if isinstance(cls, tuple) or isinstance(m, tuple):
+            continue
+        settings_pool = [{}, {}, {'ignorecase': True}, {'ignorecase': False}, {'nameguard': False}, {'whitespace': ''}, {'whitespace': '[ ]+'},
+                         {'parseinfo': True}, {'start': g['rules'][-1][0]}]
+        reused = cls()
+        hist = []
+        for step in range(rng.randint(3, 7)):
+            t = rng.choice(texts)
+            kw = dict(rng.choice(settings_pool))
+            hist.append((t, kw))
+            a = outcome(lambda: reused.parse(t, **kw))
+            b = outcome(lambda: cls().parse(t, **kw))
+            c = outcome(lambda: m.parse(t, **kw))
+            col.case(['history', E.grammar_text(g), repr(hist)], nontrivial=step > 0)
+            col.count('history.calls')
+            col.count('history.reused:' + a[0])
+            if a != b:
+                col.violation(f'history:reused-parser-differs-from-fresh:{b[0]}-vs-{a[0]}:{"+".join(sorted(k for _t, k in hist[:-1] for k in k)) or "nosettings"}',
+                              'a generated parser object reused after earlier calls behaves differently from a fresh one on the same call',
+                              {'oracle': 'generated parser: calls are independent', 'grammar': E.grammar_text(g), 'history': hist,
+                               'reused': a, 'fresh': b, 'model.parse': c})
+                break
+            if b[0] != c[0]:
+                col.count('history.fresh-vs-model-differs')      # the one-shot comparison (shard) reports and classifies these
+
+
 def main():
     chk = Check(PID)
     chk.rule = ('random grammars over the core language with directives, @nomemo, upper-case and keyword-like rule names (class, def, None, ...), '
@@ -383,6 +445,9 @@ def main():
         else:
             vlib.run_sharded(chk, shard, 28, extra=(50, 10))
         vlib.run_sharded(chk, shard_probes, 1, procs=1)
+        vlib.run_sharded(chk, shard_history, 14, extra=((12,) if chk.quick else (150,)))
+        chk.obligation('a reused generated parser object behaves like a fresh one on every call of a history', 'oracle',
+                       not any(v['signature'].startswith('history:') for v in chk.violations))
         chk.obligation('G0: generated source is valid, loadable Python', 'correspondence',
                        not any(v['signature'].startswith('G0') for v in chk.violations))
         chk.obligation('G2: generated parser vs the model of generated code', 'correspondence',
